@@ -12,6 +12,7 @@ Lemma loginv_step c s i : Inv c s -> LogInv c s -> enabled s i = true -> LogInv 
 Proof.
   intros I (t1 & t2 & t3 & L) E. unfold tstep, enabled in *.
   destruct I as [I1 I2 I3 I4 I5 I6 I7 I8 I9 I10 I11 I12 Itok Iph IphB Iowc Ip4 Irp Ioht Iocc I13 Ioh Iop0 Idec Iow0 Iow1 Iow2 I14 I15 I16 I17 I18 I19 I20 I21 I22 I23 I24 I25 I26 I27 I28 I29 I30 I31 I32 I33 I34 I35].
+  clear I1 I3 I5 I7 I8 I21 I22 I23 I24 I25 I26 I27 I28 I29 I30 I31 I32 I33 I34 I35 Iowc Ip4 Irp Ioht Iocc Iow0 Iow1 Iow2 Iop0 Idec Ioh I13.
   unfold N, expected in *.
   assert (CV : cv c <= 1) by (unfold cv, b2n; destruct (is_conv c); lia).
   assert (NF1 : nfire s <= 1) by (destruct (slot s); cbn [rdy] in I6; lia).
